@@ -93,3 +93,14 @@ Theorem C02_level0_every_schedule_never_panics_partial :
   Forall (fun it => legal_flush (snd it)) sched ->
   match drive (comp_new flags wb) data sched [] 0 with Panic _ => False | _ => True end.
 Proof. exact level0_every_schedule_never_panics. Qed.
+
+(* ... and it RETURNS: for inputs under 2^40 - 259 bytes the caller's loop over the model yields a value for every
+   legal schedule - neither a Panic value nor exhausted fuel (the engine loop's turns are bounded by the bytes still
+   offered plus the look-ahead) - so that the lossless theorems above apply to an actual result *)
+Theorem C02_level0_every_schedule_returns_partial :
+  forall (data : list N) (flags wb : N) (sched : list (N * N * N)),
+  hasf flags FLAG_RAW = true -> wb <= 15 ->
+  Forall (fun it => legal_flush (snd it)) sched ->
+  N.of_nat (length data) + 259 < 2 ^ 40 ->
+  exists result, drive (comp_new flags wb) data sched [] 0 = Ret result.
+Proof. exact level0_every_schedule_returns. Qed.
